@@ -59,7 +59,7 @@ def run(ck: Check) -> None:
     ck.floor("T2", 14)
     ck.floor("T3", 5)
     ck.floor("T5", 4)
-    ck.floor("T6", 5)
+    ck.floor("T6", 4)
     ck.floor("T8", 1)
 
 
@@ -478,6 +478,14 @@ def t5(ck: Check) -> None:
     nid = call.args[0] if call.args else None
     idsrc = fm.single_def(nid.id, cn)[1] if isinstance(nid, ast.Name) and fm.single_def(nid.id, cn) else nid
     ok_id = idsrc is not None and text(idsrc).endswith("dag.number_of_nodes()")
+    if not ok_id and idsrc is not None and text(idsrc) == "len(self)":
+        # the diagram's own length: __len__ returns the node count
+        try:
+            ln = ck.prog.fm(SD_MOD, "SuccessionDiagram.__len__")
+            rets_ = [r_ for r_ in own_walk(ln.f.node) if isinstance(r_, ast.Return) and r_.value is not None]
+            ok_id = len(rets_) == 1 and text(rets_[0].value) == "self.dag.number_of_nodes()"
+        except AnalysisError:
+            ok_id = False
     ck.ob("T5", fm, fm.f.stmt_of(call), ok_id, "new id = current number of nodes" if ok_id else
           f"new node id `{text(nid) if nid is not None else '?'}` is not the current node count (ids must stay contiguous and unique)",
           key="add_node id")
@@ -487,9 +495,17 @@ def t5(ck: Check) -> None:
             idx_stores.append(n)
     ok_idx = False
     if idx_stores:
-        cuts = [fm.cfgn(s) for s in idx_stores
-                if fm.key(s.slice, fm.cfgn(s)) == keytxt
-                and nid is not None and fm.key(fm.f.stmt_of(s).value, fm.cfgn(s)) == fm.key(nid, cn)]
+        def same_id(s) -> bool:
+            v_ = fm.f.stmt_of(s).value
+            if nid is None:
+                return False
+            if fm.key(v_, fm.cfgn(s)) == fm.key(nid, cn):
+                return True
+            # the same local, bound by the same definition (its defining expression may read the node count, which the
+            # creation in between has changed: the name still holds the id that was used)
+            return isinstance(v_, ast.Name) and isinstance(nid, ast.Name) and v_.id == nid.id and \
+                {d.id for d in fm.cfg.reaching_defs(v_.id, fm.cfgn(s))} == {d.id for d in fm.cfg.reaching_defs(nid.id, cn)}
+        cuts = [fm.cfgn(s) for s in idx_stores if fm.key(s.slice, fm.cfgn(s)) == keytxt and same_id(s)]
         ok_idx = bool(cuts) and escapes(fm, cn, cuts, None, need_pre=False) is None
     ck.ob("T5", fm, fm.f.stmt_of(call), ok_idx, "node_indices[key] = id on every path after creation" if ok_idx else
           "the created node is not (always) registered in node_indices under the key that was looked up",
@@ -616,7 +632,39 @@ def successor_protocol(ck: Check, rule: str) -> None:
         if "avoid_subspaces" in kws:
             problems.append("avoid_subspaces restricts the successor enumeration")
         nk = fm.key(net, at) if net is not None else "?"
-        if nk.endswith(".petri_net"):
+        es0 = kws.get("ensure_subspace")
+        paired = None
+        if isinstance(net, ast.Name) and isinstance(es0, ast.Name) and len(fm.cfg.reaching_defs(net.id, fm.cfgn(c))) > 1:
+            # one call for both cases, net and enclosing subspace chosen together beforehand:
+            # (own reduced net, None) with the results joined, or (global net, the node's space)
+            paired = []
+            for dn, de in fm.joint_defs(net.id, es0.id, fm.cfgn(c)):
+                if dn < 0 or de < 0:
+                    paired.append("net or subspace comes from a parameter")
+                    continue
+                nd_, ed_ = fm.cfg.nodes[dn], fm.cfg.nodes[de]
+                nv_ = nd_.ast.value if isinstance(nd_.ast, (ast.Assign, ast.AnnAssign)) else None
+                ev_ = ed_.ast.value if isinstance(ed_.ast, (ast.Assign, ast.AnnAssign)) else None
+                if nv_ is None or ev_ is None:
+                    paired.append("net / subspace bound by something else than an assignment")
+                    continue
+                nkey = fm.key(nv_, nd_)
+                if isinstance(nv_, ast.Name):
+                    sdn = fm.single_def(nv_.id, nd_)
+                    nkey = fm.key(sdn[1], sdn[0]) if sdn else nkey
+                if nkey.endswith(".petri_net") and not is_none(ev_):
+                    ek = fm.key(ev_, ed_)
+                    if not (ek.endswith("|space>") and f"|{node_param}|" in ek):
+                        paired.append("global Petri net used without restricting the result to the node's space")
+                elif nkey.endswith(f"|{node_param}|percolated_petri_net>") and is_none(ev_):
+                    if mode != "joined":
+                        paired.append("results of the reduced net are not joined with the node's space")
+                else:
+                    paired.append(f"line {nd_.lineno}: the pair (`{text(nv_)[:40]}`, ensure_subspace=`{text(ev_)[:40]}`) is neither the node's "
+                                  f"own reduced net without a subspace nor the global net with the node's space")
+        if paired is not None:
+            problems += sorted(set(paired))
+        elif nk.endswith(".petri_net"):
             es = kws.get("ensure_subspace")
             if es is None or not fm.key(es, at).endswith("|space>") or f"|{node_param}|" not in fm.key(es, at):
                 problems.append("global Petri net used without restricting the result to the node's space")
